@@ -183,3 +183,22 @@ def clear_typelib_caches():
     for c in _CACHES:
         c.cache_clear()
     return len(_CACHES)
+
+
+class Deadline(Exception):
+    """A call into the library under test did not return in time (treated as an observation, not a crash)."""
+
+
+def with_deadline(seconds, fn, *a, **kw):
+    """Run fn under a wall-clock alarm; pure-Python non-termination surfaces as Deadline."""
+    import signal
+
+    def _alarm(signum, frame):
+        raise Deadline(f"no result after {seconds}s")
+    old = signal.signal(signal.SIGALRM, _alarm)
+    signal.setitimer(signal.ITIMER_REAL, seconds)
+    try:
+        return fn(*a, **kw)
+    finally:
+        signal.setitimer(signal.ITIMER_REAL, 0)
+        signal.signal(signal.SIGALRM, old)
